@@ -43,6 +43,16 @@ class BalancedMoveRule(BaseRule):
             return True
         return False
 
+    def is_side_addend(self, node: MathExpression) -> bool:
+        """Return True if only additions separate the node from its side of the
+        equation, i.e. it is a top-level addend like `t` in `a + (t + b) = c`"""
+        current = node.parent
+        while current is not None and not isinstance(current, EqualExpression):
+            if not isinstance(current, AddExpression):
+                return False
+            current = current.parent
+        return current is not None
+
     def get_type(self, node: MathExpression) -> Optional[str]:
         """Determine the configuration of the tree for this transformation.
 
@@ -69,7 +79,10 @@ class BalancedMoveRule(BaseRule):
 
             return _TYPE_CONST_OF_MULTIPLY
 
-        if isinstance(node.parent, AddExpression):
+        # NOTE: An addend can only move across when it adds to the whole side. Inside a
+        #       product, quotient, power, negation or subtraction it must stay put,
+        #       e.g. the 3 in "2 * (x + 3) = 4"
+        if isinstance(node.parent, AddExpression) and self.is_side_addend(node):
             if isinstance(node, ConstantExpression) or get_term_ex(node) is not None:
                 return _TYPE_ADDITION
 
